@@ -1,9 +1,15 @@
 package main
 
 import (
+	"bytes"
 	"fmt"
 	"go/ast"
+	"go/parser"
+	"go/printer"
 	"go/token"
+	"os"
+	"os/exec"
+	"path/filepath"
 	"regexp"
 	"sort"
 	"strings"
@@ -479,8 +485,142 @@ func init() {
 			w.root(fd)
 			x.defStrList("grpcNewServer", w.lines(func(e ev) bool { return e.kind == "call" && e.callee == "grpc.NewServer" }))
 		}
+
+		// --- the relay library: the stream operations of grpc-proxy's handler, read from the module the repo's
+		// go.mod selects (Model/C16Relay.lean models these micro-steps) ---------------------------------------
+		c16relayFacts(x)
 		return nil
 	})
+}
+
+// c16relayFacts reads proxy/handler.go of github.com/mwitkow/grpc-proxy at the version in the repo's go.mod from
+// the module cache and lists, in source order, the operations on the two streams in the two forwarding
+// goroutines and in the cases of the handler's select. A change detector only: when the module cannot be found
+// the lists are empty.
+func c16relayFacts(x *X) {
+	const mod = "github.com/mwitkow/grpc-proxy"
+	version := ""
+	if b, err := os.ReadFile(filepath.Join(x.repo, "go.mod")); err == nil {
+		for _, line := range strings.Split(string(b), "\n") {
+			f := strings.Fields(line)
+			for i := 0; i+1 < len(f); i++ {
+				if f[i] == mod && strings.HasPrefix(f[i+1], "v") {
+					version = f[i+1]
+				}
+			}
+		}
+	}
+	x.defStr("relayModuleVersion", version)
+	var c2s, s2c, sel []string
+	defer func() {
+		x.defStrList("relayClientToServerOps", c2s)
+		x.defStrList("relayServerToClientOps", s2c)
+		x.defStrList("relaySelectCases", sel)
+	}()
+	if version == "" {
+		return
+	}
+	var roots []string
+	if out, err := exec.Command("go", "env", "GOMODCACHE").Output(); err == nil {
+		roots = append(roots, strings.TrimSpace(string(out)))
+	}
+	if v := os.Getenv("GOMODCACHE"); v != "" {
+		roots = append(roots, v)
+	}
+	if v := os.Getenv("GOPATH"); v != "" {
+		roots = append(roots, filepath.Join(v, "pkg", "mod"))
+	}
+	if h, err := os.UserHomeDir(); err == nil {
+		roots = append(roots, filepath.Join(h, "go", "pkg", "mod"))
+	}
+	var file *ast.File
+	fset := token.NewFileSet()
+	for _, r := range roots {
+		if r == "" {
+			continue
+		}
+		p := filepath.Join(r, mod+"@"+version, "proxy", "handler.go")
+		if f, err := parser.ParseFile(fset, p, nil, 0); err == nil {
+			file = f
+			break
+		}
+	}
+	if file == nil {
+		return
+	}
+	src := func(n ast.Node) string {
+		var b bytes.Buffer
+		printer.Fprint(&b, fset, n)
+		return strings.Join(strings.Fields(b.String()), " ")
+	}
+	streams := map[string]bool{"src": true, "dst": true, "clientStream": true, "serverStream": true}
+	ops := func(n ast.Node) []string {
+		var out []string
+		ast.Inspect(n, func(m ast.Node) bool {
+			switch v := m.(type) {
+			case *ast.CallExpr:
+				switch f := v.Fun.(type) {
+				case *ast.SelectorExpr:
+					if id, ok := f.X.(*ast.Ident); ok && streams[id.Name] {
+						out = append(out, id.Name+"."+f.Sel.Name)
+					}
+				case *ast.Ident:
+					if f.Name == "clientCancel" {
+						out = append(out, f.Name)
+					}
+				}
+			case *ast.ReturnStmt:
+				if len(v.Results) == 1 {
+					out = append(out, "return "+src(v.Results[0]))
+				}
+			}
+			return true
+		})
+		return out
+	}
+	for _, d := range file.Decls {
+		fd, ok := d.(*ast.FuncDecl)
+		if !ok || fd.Body == nil {
+			continue
+		}
+		switch fd.Name.Name {
+		case "forwardClientToServer", "forwardServerToClient":
+			var l []string
+			ast.Inspect(fd.Body, func(m ast.Node) bool {
+				if fl, ok := m.(*ast.FuncLit); ok {
+					for _, o := range ops(fl.Body) {
+						if !strings.HasPrefix(o, "return ") {
+							l = append(l, o)
+						}
+					}
+					return false
+				}
+				return true
+			})
+			if fd.Name.Name == "forwardClientToServer" {
+				c2s = l
+			} else {
+				s2c = l
+			}
+		case "handler":
+			ast.Inspect(fd.Body, func(m ast.Node) bool {
+				cc, ok := m.(*ast.CommClause)
+				if !ok {
+					return true
+				}
+				head := "default"
+				if cc.Comm != nil {
+					head = src(cc.Comm)
+				}
+				var l []string
+				for _, st := range cc.Body {
+					l = append(l, ops(st)...)
+				}
+				sel = append(sel, "case "+head+": "+strings.Join(l, "; "))
+				return false
+			})
+		}
+	}
 }
 
 var c16statusCode = regexp.MustCompile(`^status\.Errorf?\(codes\.([A-Za-z]+)`)
